@@ -5,7 +5,6 @@ package actor
 import (
 	"context"
 	"errors"
-	"fmt"
 	"sync"
 	"sync/atomic"
 	"testing"
@@ -310,12 +309,12 @@ func c35NewFixture(t *testing.T) *c35Fixture {
 		_ = b.Stop(ctx)
 	})
 	fix.echo = &c35Echo{}
-	echoPID, err := b.Spawn(ctx, c35EchoName, fix.echo)
+	echoPID, err := b.Spawn(ctx, c35EchoName, fix.echo, WithLongLived())
 	if err != nil {
 		fix.startErr = err
 		return fix
 	}
-	fix.sender, err = a.Spawn(ctx, "c35sender", &c35Idle{})
+	fix.sender, err = a.Spawn(ctx, "c35sender", &c35Idle{}, WithLongLived()) // never passivated: thorough runs last minutes
 	if err != nil {
 		fix.startErr = err
 		return fix
@@ -370,6 +369,9 @@ var c35ErrStub = errors.New("c35: stub delivery failure")
 
 func c35Run(x *vfkit.X, fix *c35Fixture, c c35Case, rep int) c35Outcome {
 	sys := fix.a
+	if !sys.Running() || !fix.sender.IsRunning() || !fix.b.Running() {
+		x.Failf("harness-fixture-down", "fixture not running: a=%v sender=%v b=%v", sys.Running(), fix.sender.IsRunning(), fix.b.Running())
+	}
 	sys.relocatingEndpoints.Reset()
 
 	script := &c35Script{c: c, live: fix.live, dead: fix.dead}
@@ -759,5 +761,4 @@ func TestVF_C35_handoff(t *testing.T) {
 		// real timers: replay a stored case several times
 		ReplayReps: 5,
 	})
-	_ = fmt.Sprint
 }
